@@ -48,6 +48,8 @@ def main():
         prefix, tag, args = "mutout4", "q", args[1:]
     elif args and args[0] == "--round5":
         prefix, tag, args = "mutout5", "r", args[1:]
+    elif args and args[0] == "--round6":
+        prefix, tag, args = "mutout6", "s", args[1:]
     for pid in args:
         base = "/tmp/%s_%s" % (prefix, pid)
         if not os.path.isdir(base):
